@@ -464,7 +464,9 @@ func (k *ck) masking(maxTok int) {
 		}},
 	}
 	for _, kd := range kinds {
-		for _, ver := range []int32{50100, 50101, 10101, 10110, 20104, 30103, 40001} {
+		// every version of the alphabet (each literal the sources compare Ver with, its neighbours,
+		// the family borders): the gate that decides on masking must be the family's, in every pack type
+		for _, ver := range versions() {
 			for _, cs := range conns {
 				atomic.AddInt64(&k.evals, 1)
 				if strings.Contains(cs, secret) {
@@ -489,7 +491,10 @@ func (k *ck) masking(maxTok int) {
 	// the other fields of the pack must not decide whether the password is masked: long SQL texts (the
 	// packs cap the query at 32 KiB) with the short connection strings
 	for _, kd := range kinds[:2] {
-		for _, ver := range []int32{50100, 10101, 10110} {
+		for _, ver := range versions() {
+			if f := family(ver); f != "go" && f != "php" {
+				continue
+			}
 			for _, n := range []int{32767, 32768, 32769, 65535} {
 				for _, cs := range []string{"password=" + secret, "a=1 password=" + secret, "a=1;password=" + secret + ";user=u"} {
 					atomic.AddInt64(&k.evals, 1)
